@@ -64,7 +64,7 @@ type c01Case struct {
 
 func corpusFiles() []string {
 	var files []string
-	for _, root := range []string{"/repo/tests", "/repo/examples"} {
+	for _, root := range []string{sb.Repo() + "/tests", sb.Repo() + "/examples"} {
 		filepath.Walk(root, func(p string, info os.FileInfo, err error) error {
 			if err == nil && !info.IsDir() && (strings.HasSuffix(p, ".php") || strings.HasSuffix(p, ".zy")) {
 				files = append(files, p)
@@ -328,7 +328,7 @@ func c01Corpus(cfg sb.Config, rec *sb.Rec, pool *sb.Pool, dl time.Time) bool {
 				rec.Fail(fl.Key, fl.Detail, fl.Case)
 			}
 		}
-		rel := strings.TrimPrefix(f, "/repo/")
+		rel := strings.TrimPrefix(f, sb.Repo()+"/")
 		try := func(kind string, s string) {
 			idx++
 			if idx%cfg.NShards != cfg.Shard {
